@@ -12,8 +12,9 @@ from . import harness as H
 
 
 class Instance:
-    def __init__(self, name, restr, nets, params=None, lazy=True, vm_strs=None):
+    def __init__(self, name, restr, nets, params=None, lazy=True, vm_strs=None, suite=None):
         self.name, self.restr, self.nets, self.lazy = name, restr, nets, lazy
+        self.suite = suite        # a generated suite (vf.parse.gensuite.Suite) or None for the shipped one
         self.params = dict(params or {})
         self.vm_strs = dict(vm_strs or H.VM_STRS)
         self.ids = {"ROOT": "t0"}
@@ -29,6 +30,11 @@ class Instance:
         return "only %s\nonly %s\n" % (first[0], ",".join(p.split("..", 1)[1] for p in parts))
 
     def prepare(self):
+        from ..parse import gensuite as G
+        with G.active(self.suite):
+            return self._prepare()
+
+    def _prepare(self):
         """parse with the current working tree (parent process, once)"""
         from avocado_i2n.cartgraph import TestGraph
         t0 = time.time()
@@ -197,6 +203,12 @@ def _child(inst, job, outpath):
 
 
 def run_jobs(inst, jobs, workdir, par=None, timeout=300):
+    from ..parse import gensuite as G
+    with G.active(getattr(inst, "suite", None)):
+        return _run_jobs(inst, jobs, workdir, par, timeout)
+
+
+def _run_jobs(inst, jobs, workdir, par=None, timeout=300):
     """fork one child per job from the pristine parsed instance; returns results in job order"""
     par = par or C.NCPU
     os.makedirs(workdir, exist_ok=True)
